@@ -189,10 +189,18 @@ def skipCheck (skipped : List Nat) (g' gs : Geometry) : String := Id.run do
     if d.map != s.map then return s!"violation: point mapping of uid {d.uniqueId} differs under skip"
     match s.transform with
     | .none =>
-      if d != s then return s!"violation: untransformed attribute uid {d.uniqueId} differs under skip"
+      -- an attribute without transform is either untouched, or (integer attributes whose type was
+      -- skipped) exposed as its portable int32 form, whose narrowing cast reproduces the ordinary decode
+      if d != s then
+        let len := dataTypeLength d.dataType
+        let narrowed := ((chunkBytes 4 s.values).toList.map fun b => b.take len).flatten
+        let okPortable := skipped.contains d.attType && s.dataType == 5 && d.dataType ≥ 1 && d.dataType ≤ 6 &&
+          s.numComponents == d.numComponents && s.numValues == d.numValues && s.normalized == false &&
+          narrowed == d.values.take narrowed.length && narrowed.length == d.numValues * d.stride
+        if !okPortable then return s!"violation: untransformed attribute uid {d.uniqueId} differs under skip"
     | .quantization bits mins range =>
       if !skipped.contains d.attType then return s!"violation: attribute uid {d.uniqueId} left untransformed although its type was not skipped"
-      if s.dataType != 5 || s.numComponents != d.numComponents then return "violation: skipped quantized attribute is not int32 with the original component count"
+      if (s.dataType != 5 && s.dataType != 6) || s.numComponents != d.numComponents then return "violation: skipped quantized attribute is not a 32-bit integer attribute with the original component count"
       let ks := (chunkBytes 4 s.values).toList.map fun b => toSigned 32 (leValue b)
       let nc := d.numComponents
       let vals := (ks.zipIdx.map fun (k, i) => writeLE 4 (Quant.dequantizeBits mins range bits.toNat (i % nc) k)).flatten
